@@ -58,6 +58,26 @@ Header(p) == SubSeq(p.bytes, 1, HeaderLen)
 Padding(p) == SubSeq(p.bytes, DataBytes(p.w, p.h) + 1, Len(p.bytes))
 
 (***************************************************************************)
+(* Operations of the page API as a total function of (page, op).           *)
+(* op = [k, x, y, v]: k = "set" | "get" | "setall".  Out-of-bounds         *)
+(* coordinates panic and leave the page unchanged.                         *)
+(***************************************************************************)
+Op(k, x, y, v) == [k |-> k, x |-> x, y |-> y, v |-> v]
+Apply(p, op) ==
+    CASE op.k = "setall" -> [p |-> SetAll(p, op.v), res |-> "ok"]
+      [] op.k = "set" -> IF InBounds(p.w, p.h, op.x, op.y) THEN [p |-> SetPixel(p, op.x, op.y, op.v), res |-> "ok"]
+                         ELSE [p |-> p, res |-> "panic"]
+      [] op.k = "get" -> IF InBounds(p.w, p.h, op.x, op.y) THEN [p |-> p, res |-> IF GetPixel(p, op.x, op.y) THEN "true" ELSE "false"]
+                         ELSE [p |-> p, res |-> "panic"]
+
+\* the pixel matrix as sequences (column x+1, row y+1), for JSON projections
+\* pixels as 0 / 1 (a recorded 2 stands for 'reading this pixel panicked')
+Bit(v) == IF v THEN 1 ELSE 0
+PixelSeq(p) == [x \in 1..p.w |-> [y \in 1..p.h |-> Bit(GetPixel(p, x - 1, y - 1))]]
+\* what C06 speaks about: dimensions, id, length, header, padding and what every pixel reads
+PageObs(p) == [w |-> p.w, h |-> p.h, id |-> PageId(p), len |-> Len(p.bytes), header |-> Header(p), padding |-> Padding(p), px |-> PixelSeq(p)]
+
+(***************************************************************************)
 (* Relations stated by C06 between a page before (p) and after (q) a call. *)
 (***************************************************************************)
 SameFrame(p, q) == /\ q.w = p.w /\ q.h = p.h /\ Len(q.bytes) = Len(p.bytes)
@@ -77,4 +97,19 @@ SetPixelRel(p, q, x, y, v) ==
 SetAllRel(p, q, v) ==
     /\ SameFrame(p, q)
     /\ \A x \in 0..(p.w - 1) : \A y \in 0..(p.h - 1) : GetPixel(q, x, y) = v
+
+(***************************************************************************)
+(* The same relations on observations (PageObs-shaped records o, o2), so   *)
+(* that recorded behaviour can be judged without assuming the byte layout: *)
+(* px is what get_pixel actually returned for every coordinate.            *)
+(***************************************************************************)
+ObsSameFrame(o, o2) == /\ o2.w = o.w /\ o2.h = o.h /\ o2.id = o.id /\ o2.len = o.len
+                       /\ o2.header = o.header /\ o2.padding = o.padding
+ObsSetPixel(o, o2, x, y, v) ==
+    /\ ObsSameFrame(o, o2)
+    /\ o2.px[x + 1][y + 1] = Bit(v)
+    /\ \A i \in 1..o.w : \A k \in 1..o.h : (i # x + 1 \/ k # y + 1) => o2.px[i][k] = o.px[i][k]
+ObsSetAll(o, o2, v) ==
+    /\ ObsSameFrame(o, o2)
+    /\ \A i \in 1..o.w : \A k \in 1..o.h : o2.px[i][k] = Bit(v)
 =============================================================================
